@@ -27,8 +27,11 @@ def run(meta):
             shutil.copy(os.path.join(V, f), os.path.join(tmp, f))
         if os.path.isdir(os.path.join(V, "replay")):
             shutil.copytree(os.path.join(V, "replay"), os.path.join(tmp, "replay"))
-        r = subprocess.run([os.path.join(V, "bin", "govc"), "check", meta["property"], "--repo", repo, "--evidence", os.path.join(tmp, "ev"), "--no-replay"],
-                           capture_output=True, text=True, env=env, timeout=900)
+        try:
+            r = subprocess.run([os.path.join(V, "bin", "govc"), "check", meta["property"], "--repo", repo, "--evidence", os.path.join(tmp, "ev"), "--no-replay"],
+                               capture_output=True, text=True, env=env, timeout=1500)
+        except subprocess.TimeoutExpired:
+            return name, "TIMEOUT (inconclusive: the check did not finish in 1500 s)", meta, time.time() - t0
         failed = r.returncode != 0
         want = meta["expect"] == "fail"
         obl = [l for l in r.stdout.splitlines() if l.startswith("FAILED-OBLIGATION") or l.startswith("FAILED-BOUNDED-CHECK")]
